@@ -158,6 +158,9 @@ BUILTIN_CLASSES = [
     ('StopIteration', ['Exception']),
     ('asyncio.InvalidStateError', ['Exception']),
     ('asyncio.TimeoutError', ['Exception']),
+    ('Warning', ['Exception']),
+    ('UserWarning', ['Warning']),
+    ('DeprecationWarning', ['Warning']),
     ('UserException', ['Exception']),  # placeholder: any exception class defined by user code
     ('UserObject', ['object']),
     ('UserCallEvent', ['object']),  # ghost: one record per call into unknown (user) code  # placeholder: any object of a class unknown to the class table
@@ -197,7 +200,8 @@ EXTERNAL_ALIASES = {
     'KeyboardInterrupt': 'KeyboardInterrupt', 'NotImplementedError': 'NotImplementedError',
     'FileNotFoundError': 'FileNotFoundError', 'LookupError': 'LookupError', 'StopIteration': 'StopIteration',
     'list': 'list', 'tuple': 'tuple', 'set': 'set', 'str': 'str', 'int': 'int', 'bool': 'bool', 'float': 'float',
-    'frozenset': 'frozenset', 'property': 'property',
+    'frozenset': 'frozenset', 'property': 'property', 'UserWarning': 'UserWarning', 'DeprecationWarning': 'DeprecationWarning',
+    'Warning': 'Warning',
     'asyncio.Future': 'asyncio.Future', 'asyncio.futures.Future': 'asyncio.Future',
     'asyncio.CancelledError': 'asyncio.CancelledError', 'asyncio.InvalidStateError': 'asyncio.InvalidStateError',
     'asyncio.TimeoutError': 'asyncio.TimeoutError',
